@@ -29,6 +29,13 @@ CHECKS = {
         technique="deterministic simulation: baton-passed real threads, seeded statement- and line-level pre-emption (sys.settrace), exception injection inside contexts, reference = per-thread snapshot stack",
         design="4/C66",
     ),
+    "C05": dict(
+        category="exploration",
+        text="Seeded search over cache histories and store behaviours: one cache store (PennyLane's own LRU with a drawn cachesize, or a simulator-owned mapping that is unbounded, LRU with capacity 1-8, or randomly evicting) is shared by a history of qp.execute / QNode calls on batches built from base circuits and near-duplicate mutators (angles shifted by 2pi/4pi, wires relabelled, trainable indices, adjoint/pow/ctrl wrappers, measurement and wire-order changes, exact duplicates). Every result is compared with cache=False on a fresh device, and the store's live collision monitor flags a key that ever receives two different values.",
+        note="Trusted: default.qubit's analytic results with cache=False as the oracle; tolerance 1e-9. Capacity is a swarm-style knob; an eviction-induced lookup failure under a *user-supplied* evicting mapping may raise but never return another value. One recorded finding (KeyError with cache=True and a tiny cachesize) is excluded by configuration.",
+        technique="deterministic simulation: simulated cache store with seeded eviction faults over execution histories, differential oracle cache=False",
+        design="4/C05",
+    ),
 }
 
 NA = {}
